@@ -373,12 +373,23 @@ def lifetime_fresh(life, scratch):
     sim = Sim(scratch)
     with sim:
         set_knob(NEVER_FLUSH)
-        r = call(lambda: new_shaper(_lifetime_kwargs(life)).shex_graph(string_output=True), None)
+        r = _run_life(sim, life)
     return {"kind": r.kind, "text": r.text, "exc": r.exc, "msg": r.msg}
 
 
+def _run_life(sim, life):
+    if "graph" in life:
+        sim.set_endpoint(SimEndpoint(sim, [gen.T(t) for t in life["graph"]], row_seed=life.get("row_seed", 0)))
+    return call(lambda: new_shaper(_lifetime_kwargs(life)).shex_graph(string_output=True), None)
+
+
 def _lifetime_kwargs(life):
-    kw = {"raw_graph": life["doc"], "namespaces_dict": dict(gen.BASE_NS), "instances_report_mode": "mixed"}
+    kw = {"namespaces_dict": dict(gen.BASE_NS), "instances_report_mode": "mixed"}
+    if "graph" in life:
+        kw["url_endpoint"] = EP_URL          # the dataset behind the endpoint (a SimEndpoint over life["graph"])
+    else:
+        kw["raw_graph"] = life["doc"]
+    kw.update(life.get("options", {}))
     kw.update(target_kwargs(life["target"]))
     if "input_format" in life:
         kw["input_format"] = life["input_format"]
@@ -396,7 +407,7 @@ def _execute_lifetimes(scen, scratch):
     with sim:
         set_knob(NEVER_FLUSH)
         for j, life in enumerate(scen["lifetimes"]):
-            r = call(lambda: new_shaper(_lifetime_kwargs(life)).shex_graph(string_output=True), None)
+            r = _run_life(sim, life)
             gc.collect()
             ref = pristine_call("dsim.props.c18", "lifetime_fresh", life, os.path.join(scratch, "fresh"))
             sim.probes["lifetimes"] += 1
@@ -812,6 +823,18 @@ def extra_scenarios(tier, base):
                                 "ex:n1 a ex:C0 ; ex:code \"2\"^^xsd:integer .\n",
                          "input_format": "turtle", "target": {"all_classes_mode": True}})
         out.append(("lifetimes-%d" % h, {"lifetimes": lives}))
+        # the same idea against an endpoint: one address, one list of target classes (a new list object every time),
+        # another dataset behind the address in every lifetime
+        lives = []
+        for j in range(30):
+            triples = []
+            for n in range(6):
+                node = gen.iri(gen.EX + "n%d" % n)
+                triples.append((node, gen.iri(gen.RDF_TYPE), gen.iri(gen.EX + rng.choice(["C0", "C1"]))))
+                triples.append((node, gen.iri(gen.EX + "p%d" % rng.randrange(2)), gen.lit("v%d" % rng.randrange(3), gen.XSD + "string")))
+            lives.append({"graph": gen.L(triples), "row_seed": j, "target": {"target_classes": [gen.EX + "C0", gen.EX + "C1"]},
+                          "options": ({"disable_endpoint_cache": True} if j % 3 == 0 else {})})
+        out.append(("lifetimes-endpoint-%d" % h, {"lifetimes": lives}))
     return out
 
 
